@@ -440,12 +440,12 @@ def run(ck: Check) -> None:
         "(discharged in Lean for values of plain characters; for repr/escape-table/docstring values by the literal theorems above, "
         "un-indented); the statement is about the final lexical state, the per-site state sets are those of the same sound analysis",
     ]
-    tpl_campaign.campaign_lex_auto(ck, 600 if quick else 6000)
     campaign_lex(ck, 3000 if quick else 40000)
     campaign_translate(ck, 600 if quick else 6000)
     campaign_docstring(ck, 800 if quick else 10000)
     campaign_pattern(ck, 1000 if quick else 15000)
     campaign_e2e(ck, 400 if quick else 6000)
+    tpl_campaign.campaign_lex_auto(ck, 600 if quick else 6000)  # last: the older campaigns keep their random streams
     ck.search_hooks.append(search_bad_table_char)
     known_findings(ck)
 
